@@ -130,9 +130,12 @@ def features(case, vio):
     # value-level features of the failing op
     from . import gen as G
     if "val" in op:
-        decl = ["cls", op["cls"]] if op["k"] == "call" else op.get("shape")
+        decl = ["cls", op["cls"]] if op["k"] in ("call", "agree") else op.get("shape")
         if decl is not None and G.has_subclass_instance(fam, op["val"], decl):
             feats.add("subclass_instance")
+    if op.get("outer_val") and G.has_subclass_instance(
+            fam, op["outer_val"], ["cls", op["outer_val"][1]]):
+        feats.add("subclass_instance")
     return sorted(feats)
 
 
